@@ -58,10 +58,16 @@ func runC16(cfg *vh.Config) error {
 	res := vh.NewResult("C16", cfg.Seed)
 	res.Rule = "generated valid j5s packages (2-6 objects/oneofs/enums with self and mutual recursion, every scalar/array/map/ref field type, 1-2 services x 1-4 methods over all five verbs with 0-2 path parameters of every scalar type, list methods over (recursive) item objects, methods without response, topics, entities) through the real chain compile -> PrintFile -> ReadFSImage -> APIFromImage -> APIFromSource -> J5 JSON -> BuildSwagger -> json.Marshal in crash-isolated workers; the same packages with a mutated service file (renamed service/request/response, removed or custom http rule, broken path); hand-built service names and method descriptors; hand-built source APIs with random cyclic schema graphs, odd paths and list responses. non-trivial = distinct generated input"
 	cf := &vh.CasesFile{
-		Header: "From Coq Require Import String List NArith.\nFrom J5V.lib Require Import Outcome.\nFrom J5V.model Require Import Pipeline PipelineCorr.",
+		Header: "From Coq Require Import String List NArith.\nFrom J5V.lib Require Import Outcome.\nFrom J5V.model Require Import Pipeline PipelineEntity PipelineCorr.",
 		Type:   "c16case",
 		Check:  "c16_check",
 	}
+	// the compiler side: compile_image(declaration) against the observed image (model/PipelineCompileCorr.v)
+	type compileRec struct {
+		term  string
+		input any
+	}
+	var compileCases []compileRec
 	distinct := vh.Distinct{}
 	caseNo := 0
 	addCase := func(stream, term string, input, impl any) {
@@ -170,8 +176,12 @@ func runC16(cfg *vh.Config) error {
 			continue
 		}
 		sk, ck, wk := stageKind(r.status("source")), stageKind(r.status("client")), stageKind(r.status("swagger"))
-		term := fmt.Sprintf("CChain %s\n    %d %s\n    %d %s %s %d", coqImg(r.Img), sk, coqSrcObs(r.Src), ck, coqMethodObs(r.Methods), coqKeys(r.Schemas), wk)
+		term := fmt.Sprintf("CChainE %s %s\n    %d %s\n    %d %s %s %d", coqAnns(r.Img), coqImg(r.Img), sk, coqSrcObs(r.Src), ck, coqMethodObs(r.Methods), coqKeys(r.Schemas), wk)
 		addCase(stream, term, input, map[string]any{"stages": r.Stages, "methods": r.Methods, "schemas": r.Schemas})
+		if pks[i].mut == nil && r.status("source") == "ok" {
+			decl, extra := coqDeclPackage(p)
+			compileCases = append(compileCases, compileRec{term: fmt.Sprintf("CCompile %s %s\n    %s", decl, vh.BoolTerm(extra), coqImg(r.Img)), input: input})
+		}
 		if pks[i].mut == nil {
 			res.Sample(map[string]any{"stream": stream, "package": p.Pkg, "services": len(p.Services), "schemas": len(p.Schemas), "entity": p.Entity != nil, "stages_ok": bad == nil}, 3)
 		} else {
@@ -284,7 +294,25 @@ func runC16(cfg *vh.Config) error {
 		res.Cases[i].Shard = fmt.Sprintf("cases_%d", i/per)
 		res.Cases[i].Pos = i % per
 	}
-	res.Shards = shards
+	// compile stream: its own shards
+	cc := &vh.CasesFile{
+		Header: "From Coq Require Import String List NArith.\nFrom J5V.lib Require Import Outcome.\nFrom J5V.model Require Import Pipeline PipelineCompile PipelineCompileCorr.",
+		Type:   "c16compile",
+		Check:  "c16_compile_check",
+	}
+	const perC = 60
+	for i, c := range compileCases {
+		caseNo++
+		res.Count("compile-image")
+		cc.Terms = append(cc.Terms, c.term)
+		res.Cases = append(res.Cases, vh.CaseRec{Case: caseNo, Stream: "compile-image", Shard: fmt.Sprintf("compile_%d", i/perC), Pos: i % perC, Input: c.input, Impl: "observed image"})
+	}
+	cshards, err := cc.WriteShards(cfg.Out, "compile", perC)
+	if err != nil {
+		return err
+	}
+	res.Evaluations = caseNo
+	res.Shards = append(shards, cshards...)
 	return res.Write(cfg.Out)
 }
 
